@@ -193,10 +193,25 @@ class Lib:
         if attr == "_fields_":
             d = e.class_decl(base.t[1])
             if d is not None and getattr(d, "cinfo", None):
-                self.use("MessageMeta: _fields_ lists ('_'+name, ctype) for every descriptor in definition order")
-                items = [Val(("tuple", STR, ("ctype",)), (e.const_val("_" + f), Val(("ctype",), None, conc=(k, m))))
-                         for f, k, m in d.cinfo["fields"]]
-                return [(st, Val(("conclist",), items))]
+                self.use("MessageMeta / ctypes: <obj>._fields_ is the _fields_ of the object's own class and lists ('_'+name, ctype) only for the descriptors that class declares itself "
+                         "(inherited fields belong to the base class's _fields_)")
+                outs = []
+                cands = [c for c in sorted(set(e.subclasses_of(base.t[1])) | {base.t[1]}) if getattr(e.class_decl(c), "cinfo", None)]
+                for c in cands:
+                    cond = e.dtype_fn(base.z) == e.class_id(c)
+                    if len(cands) > 1 and not e.feasible(st, cond):
+                        continue
+                    s2 = st.fork() if len(cands) > 1 else st
+                    if len(cands) > 1:
+                        s2.assume(cond)
+                    ci = e.class_decl(c).cinfo
+                    own = ci["fields"][ci.get("own_start", 0):] if c != base.t[1] or ci.get("own_start", 0) else ci["fields"]
+                    if c == base.t[1] and not ci.get("own_start", 0):
+                        own = ci["fields"]
+                    items = [Val(("tuple", STR, ("ctype",)), (e.const_val("_" + f), Val(("ctype",), None, conc=(k, m)))) for f, k, m in own]
+                    outs.append((s2, Val(("conclist",), items)))
+                if outs:
+                    return outs
         # the attribute may belong to the dynamic class (after an isinstance test): dispatch on dtype
         cands = [c for c in e.subclasses_of(base.t[1]) if c != base.t[1] and e.field_decl(c, attr) is not None]
         out = []
